@@ -221,4 +221,42 @@ def End2.feedB (m : Batcher.Mode) (e : End2 α) : List (α × Bool) → End2 α
   | [] => e
   | (y, el) :: ys => (e.enqueue m false y el).feedB m ys
 
+/-! ### … with the block's receive timeout in (discrete) real time
+
+  `TBlock` = the `End2` above behind a `Start` whose `recv_timeout(max_delay)` is modelled with a
+  tick counter: `since` = ticks since the last batch was received (or since the timeout fired),
+  `delta` = `max_delay` in ticks. A tick makes the timeout fire iff the block has not already timed
+  out and `delta` ticks have passed without a batch (start/mod.rs:287-299); receiving a batch
+  re-arms the full delay (a new `recv_timeout(max_delay)` call, start/mod.rs:284-287). -/
+
+structure TBlock (α : Type) where
+  e : End2 α
+  since : Nat
+  idle : Bool
+  deriving Repr, DecidableEq
+
+/-- `FlushBatch` reaches the `End`: every batcher is flushed (end.rs:223-226) -/
+def End2.flushAll (e : End2 α) : End2 α :=
+  let a := Batcher.flush e.bufA
+  let b := Batcher.flush e.bufB
+  { bufA := a.1, bufB := b.1, sentA := e.sentA ++ a.2, sentB := e.sentB ++ b.2 }
+
+/-- one unit of time passes without a batch arriving -/
+def TBlock.tick (delta : Nat) (b : TBlock α) : TBlock α :=
+  if !b.idle && b.since + 1 ≥ delta then { e := b.e.flushAll, since := 0, idle := true }
+  else { b with since := b.since + 1 }
+
+def TBlock.ticks (delta : Nat) : Nat → TBlock α → TBlock α
+  | 0, b => b
+  | k + 1, b => TBlock.ticks delta k (b.tick delta)
+
+/-- a batch with one element routed to B arrives and is processed -/
+def TBlock.recvB (m : Batcher.Mode) (b : TBlock α) (y : α) (el : Bool) : TBlock α :=
+  { e := b.e.enqueue m false y el, since := 0, idle := false }
+
+/-- the trickle: before each element `gap` ticks pass -/
+def TBlock.trickle (m : Batcher.Mode) (delta gap : Nat) (b : TBlock α) : List (α × Bool) → TBlock α
+  | [] => b
+  | (y, el) :: ys => TBlock.trickle m delta gap ((TBlock.ticks delta gap b).recvB m y el) ys
+
 end Noir.Latency
